@@ -14,10 +14,10 @@ import (
 )
 
 type c13rig struct {
-	env   types.EnvType
-	incFn types.MalType
+	env    types.EnvType
+	incFn  types.MalType
 	restFn types.MalType
-	bm    []model.BuiltinModel
+	bm     []model.BuiltinModel
 }
 
 var fnVal = V{K: model.KFn}
@@ -481,13 +481,12 @@ func init() {
 		}
 		return &vf.Check{
 			ID: "C13", Level: "model_checking",
-			Rule: "every (builtin, argument tuple) of the bounded space and every depth-2 composition is evaluated through the real EVAL and compared with a three-valued abstract model of sequences / string-keyed maps / string sets (exact value with kind, value in any order, must-error, error-or-nil, unspecified); non-trivial = the model specifies the outcome",
+			Rule:        "every (builtin, argument tuple) of the bounded space and every depth-2 composition is evaluated through the real EVAL and compared with a three-valued abstract model of sequences / string-keyed maps / string sets (exact value with kind, value in any order, must-error, error-or-nil, unspecified); non-trivial = the model specifies the outcome",
 			Assumptions: []string{"the model (harness/internal/model/coll.go) transcribes README + tests/step*.mal; everything they leave open is 'unspecified' and accepts any non-panicking outcome", "wrong argument counts are not generated"},
-			Families: []*vf.Family{direct, comp, diamonds, rename},
+			Families:    []*vf.Family{direct, comp, diamonds, rename},
 		}
 	})
 }
-
 
 func renameCase(i int64, targets []V, keys []string) (m, ren V) {
 	nT := int64(len(targets))
